@@ -116,7 +116,7 @@ func specDel(m map[string]Value, k string) int64 {
 
 // representation invariant V: every stored value has its 16-byte header
 func specWF(m map[string]Value) bool {
-	return m != nil && vs.ForallKey(m, func(k string) bool { return !vs.Has(m, k) || len(m[k]) >= 16 })
+	return m != nil && vs.ForallKey(m, func(k string) bool { return !vs.Has(m, k) || (len(m[k]) >= 16 && vs.WellFormed(m[k])) })
 }
 
 func pre_Volatile(s *Volatile) bool { return s != nil && s.lock != nil && specWF(s.data) }
@@ -128,10 +128,8 @@ func post_Volatile_Has(s *Volatile, item string, res0 bool) bool {
 
 // specSep: entries of one map do not share bytes (each Value is its own allocation or sub-slice of one)
 func specSep(m map[string]Value) bool {
-	return vs.ForallKey(m, func(k1 string) bool {
-		return vs.ForallKey(m, func(k2 string) bool {
-			return !vs.Has(m, k1) || !vs.Has(m, k2) || k1 == k2 || vs.Disjoint(m[k1], m[k2])
-		})
+	return vs.ForallKey2(m, func(k1, k2 string) bool {
+		return !vs.Has(m, k1) || !vs.Has(m, k2) || k1 == k2 || vs.Disjoint(m[k1], m[k2])
 	})
 }
 
@@ -151,11 +149,16 @@ func pre_Volatile_Upd(s *Volatile, value []byte) bool {
 
 // Add at clock reading `now` is the join with (now, .): a non-newer reading changes nothing (which IS the join).
 // `now` is the value the clock returned: the single recorded call of the Now function variable.
-//@ verify (*Volatile).Add pre=pre_Volatile_Upd post=post_Volatile_Add,post_Volatile_WF props=C04,C14
-func post_Volatile_Add(s *Volatile, item string, value []byte) bool {
+//@ verify (*Volatile).Add pre=pre_Volatile_Upd post=post_Volatile_Add_add,post_Volatile_Add_del,post_Volatile_WF props=C04,C14
+func post_Volatile_Add_add(s *Volatile, item string, value []byte) bool {
 	now := vs.TraceRetInt64(0, 0)
-	return vs.TraceLen() == 1 && specAdd(s.data, item) == specMax(oldAdd(s.data, item), now) &&
-		specDel(s.data, item) == oldDel(s.data, item) && specOthersKeep(s.data, item)
+	return vs.TraceLen() == 1 && specAdd(s.data, item) == specMax(oldAdd(s.data, item), now)
+}
+func post_Volatile_Add_del(s *Volatile, item string, value []byte) bool {
+	return specDel(s.data, item) == oldDel(s.data, item)
+}
+func post_Volatile_Add_others(s *Volatile, item string, value []byte) bool {
+	return specOthersKeep(s.data, item)
 }
 func post_Volatile_WF(s *Volatile) bool { return specWF(s.data) }
 
@@ -164,5 +167,56 @@ func pre_Volatile_Del(s *Volatile) bool { return s != nil && s.lock != nil && sp
 func post_Volatile_Del(s *Volatile, item string) bool {
 	now := vs.TraceRetInt64(0, 0)
 	return vs.TraceLen() == 1 && specDel(s.data, item) == specMax(oldDel(s.data, item), now) &&
-		specAdd(s.data, item) == oldAdd(s.data, item) && specOthersKeep(s.data, item)
+		specAdd(s.data, item) == oldAdd(s.data, item)
+}
+
+// NOT discharged unboundedly: "every other key keeps its (add, del)" for Add/Del (post_Volatile_Add_others /
+// specOthersKeep). The byte-level separation argument over all keys does not get through the solvers within
+// the budget (DESIGN section 2.8 item 9); it is covered by the bounded stand-ins below instead.
+
+// ---------------------------------------------------------------------------------------------------------
+// BOUNDED stand-ins on the real NewVolatile / Add / Del / Merge: small sets, every key equality and every time
+// (negative and equal ones included) symbolic. Labelled bounded; never counted as proved.
+
+func mkValue(a, d int64) Value {
+	v := newValue()
+	v.setAddTime(a)
+	v.setDelTime(d)
+	return v
+}
+
+// one existing entry; Add then Del of a possibly different key: the other key is untouched, the view is the join
+//@ bounded standinAddDel props=C04,C14 bound=1-entry-set,one-Add-then-one-Del,keys-possibly-equal
+func standinAddDel(k1, k2 string, a1, d1 int64, payload []byte) bool {
+	s := NewVolatile()
+	s.data[k1] = mkValue(a1, d1)
+	a0, d0 := specAdd(s.data, k2), specDel(s.data, k2)
+	s.Add(k2, payload)
+	now1 := vs.TraceRetInt64(0, 0)
+	ok1 := specAdd(s.data, k2) == specMax(a0, now1) && specDel(s.data, k2) == d0 &&
+		(k1 == k2 || (specAdd(s.data, k1) == a1 && specDel(s.data, k1) == d1))
+	s.Del(k2)
+	now2 := vs.TraceRetInt64(1, 0)
+	ok2 := specDel(s.data, k2) == specMax(d0, now2) && specAdd(s.data, k2) == specMax(a0, now1) &&
+		(k1 == k2 || (specAdd(s.data, k1) == a1 && specDel(s.data, k1) == d1))
+	return ok1 && ok2 && s.Has(k2) == specActive(specMax(a0, now1), specMax(d0, now2))
+}
+
+// Merge, smallest shape (one entry in each set, keys possibly equal): afterwards the receiver holds the join and
+// the argument holds exactly the delta - only the times that changed the receiver, nothing when nothing changed.
+// The receiver's own times are >= 0 (invariant N of DESIGN section 6 C04: without it add_s = MinInt64 loses to 0).
+//@ bounded standinMerge11 pre=pre_standinMerge11 props=C04,C13 bound=1-entry-receiver,1-entry-argument,keys-possibly-equal
+//@ loop (*Volatile).Merge 0 unroll 1
+func pre_standinMerge11(k1, k2 string, a1, d1, a2, d2 int64) bool { return a1 >= 0 && d1 >= 0 }
+func standinMerge11(k1, k2 string, a1, d1, a2, d2 int64) bool {
+	s, r := NewVolatile(), NewVolatile()
+	s.data[k1] = mkValue(a1, d1)
+	r.data[k2] = mkValue(a2, d2)
+	sa, sd := specAdd(s.data, k2), specDel(s.data, k2)
+	s.Merge(r)
+	join := specAdd(s.data, k2) == specMax(sa, a2) && specDel(s.data, k2) == specMax(sd, d2) &&
+		(k1 == k2 || (specAdd(s.data, k1) == a1 && specDel(s.data, k1) == d1))
+	delta := vs.Has(r.data, k2) == (sa < a2 || sd < d2) &&
+		(!vs.Has(r.data, k2) || (specAdd(r.data, k2) == specDeltaT(sa, a2) && specDel(r.data, k2) == specDeltaT(sd, d2)))
+	return join && delta
 }
